@@ -837,6 +837,8 @@ def run(chk):
     chk.trusted += [
         "hand model coq/model/DesugarSem.v (desugar_assignment) tied by exact tree correspondence on every run",
         "hand model coq/model/Exhaust.v (exhaust_tensor, extract_context) tied by exact correspondence on generated trees",
+        "hand model coq/model/DesugarSemGraph.v (iteration graph data, loop-nest meaning gdenote): the graph dumper "
+        "(c01_worker.graphs) is 1:1 on node classes; gdenote is the SPECIFICATION of what a graph means as loops",
         "NOT VERIFIED: iteration_graph/_generate_ir.py, outputs/*, _to_iteration_graphs.py, code generation and "
         "compilation: covered only by the differential sweep of real kernels against Spec.spec (testing)",
         "tools/harness/c01_spec.py Python mirror of Spec.spec (cross-checked against vm_compute of Spec.spec on a sample each run)",
@@ -851,11 +853,11 @@ def run(chk):
 
     rng = chk.rng
     # ---------------------------------------------------------------- problems
-    n_search = 220 if thorough else 110
+    n_search = 180 if thorough else 90
     search = search_assignments(rng, n_search)
     templates = list(sweep.TEMPLATES)
     problems = []
-    cap_t, cap_s = (20, 6) if thorough else (7, 3)
+    cap_t, cap_s = (20, 5) if thorough else (7, 3)
     ns, ni = (3, 2) if thorough else (2, 2)
     for t in templates:
         problems.append({"assignment": t, "cap": cap_t, "nsizes": ns, "ninputs": ni, "tag": "template"})
@@ -906,7 +908,7 @@ def run(chk):
             cases += make_variants(rng, c, by_assignment, lambda: next(ident))
     if thorough:  # the C back end too, on a part of the sweep
         for i, c in enumerate(base):
-            if i % 8 == 0:
+            if i % 10 == 0:
                 d = dict(c)
                 d["id"] = next(ident)
                 d["backend"] = "cffi"
